@@ -1,0 +1,28 @@
+//go:build verif
+
+// Package verifhook provides yield points for the external verification
+// harness (build tag "verif").
+package verifhook
+
+import "sync/atomic"
+
+// Handler is called at every Point.
+type Handler func(name string, arg any)
+
+var handler atomic.Pointer[Handler]
+
+// Set installs h as the handler (nil removes it).
+func Set(h Handler) {
+	if h == nil {
+		handler.Store(nil)
+		return
+	}
+	handler.Store(&h)
+}
+
+// Point calls the installed handler, if any.
+func Point(name string, arg any) {
+	if h := handler.Load(); h != nil {
+		(*h)(name, arg)
+	}
+}
